@@ -213,6 +213,85 @@ theorem checkCycle_all_iff (s : Schema N) :
     (∀ g ∈ s.groups, checkCycle s g.name [] g.line = .ok ()) ↔ NoUseCycle s :=
   ⟨checkCycle_sound, fun hno g _ => checkCycle_complete hno g.name [] g.line (by simp)⟩
 
+/-! ## `_group_attrs`: the path argument of the model is immaterial on acyclic schemas -/
+
+theorem groupMembersAttrs_congr (s : Schema N) (n : String) (st1 st2 : List String) (ms : List (Member N))
+    (h : ∀ u : Use N, Member.use u ∈ ms →
+      groupAttrs s u.group (st1 ++ [n]) = groupAttrs s u.group (st2 ++ [n])) :
+    groupMembersAttrs s n st1 ms = groupMembersAttrs s n st2 ms := by
+  induction ms with
+  | nil => rw [groupMembersAttrs, groupMembersAttrs]
+  | cons m ms ih =>
+    have ih' := ih (fun u hu => h u (List.mem_cons_of_mem _ hu))
+    cases m with
+    | use u =>
+      rw [groupMembersAttrs, groupMembersAttrs, ih', h u List.mem_cons_self]
+    | attr a => rw [groupMembersAttrs, groupMembersAttrs, ih']
+    | child a => rw [groupMembersAttrs, groupMembersAttrs, ih']
+    | const a => rw [groupMembersAttrs, groupMembersAttrs, ih']
+    | con a => rw [groupMembersAttrs, groupMembersAttrs, ih']
+
+theorem groupAttrs_stack_indep {s : Schema N} (hno : NoUseCycle s) (n : String) (st1 st2 : List String)
+    (h1 : ∀ x ∈ st1, Reach s x n) (h2 : ∀ x ∈ st2, Reach s x n) :
+    groupAttrs s n st1 = groupAttrs s n st2 := by
+  have hn1 : n ∉ st1 := fun hmem => hno n (h1 n hmem)
+  have hn2 : n ∉ st2 := fun hmem => hno n (h2 n hmem)
+  rw [groupAttrs, groupAttrs]
+  simp only [hn1, hn2, ↓reduceDIte]
+  split
+  · rfl
+  · rename_i g hg
+    apply groupMembersAttrs_congr
+    intro u hu
+    have he : UseEdge s n u.group := ⟨g, u, hg, hu, rfl⟩
+    have _l1 := unvisited_lt hg hn1
+    have _l2 := unvisited_lt hg hn2
+    apply groupAttrs_stack_indep hno
+    · intro x hx
+      rcases List.mem_append.mp hx with hx | hx
+      · exact (h1 x hx).snoc he
+      · rw [List.mem_singleton.mp hx]; exact .step he
+    · intro x hx
+      rcases List.mem_append.mp hx with hx | hx
+      · exact (h2 x hx).snoc he
+      · rw [List.mem_singleton.mp hx]; exact .step he
+termination_by unvisited s st1 + unvisited s st2
+decreasing_by omega
+
+theorem groupMembersAttrs_eq_expanded (s : Schema N) (n : String) (ms : List (Member N))
+    (h : ∀ u : Use N, Member.use u ∈ ms → groupAttrs s u.group ([] ++ [n]) = groupAttrs s u.group []) :
+    groupMembersAttrs s n [] ms = expandedAttrs s ms := by
+  induction ms with
+  | nil => rw [groupMembersAttrs, expandedAttrs]
+  | cons m ms ih =>
+    have ih' := ih (fun u hu => h u (List.mem_cons_of_mem _ hu))
+    cases m with
+    | use u => rw [groupMembersAttrs, expandedAttrs, ih', h u List.mem_cons_self]
+    | attr a => rw [groupMembersAttrs, expandedAttrs, ih']
+    | child a => rw [groupMembersAttrs, expandedAttrs, ih'] <;> (intro _ hc; cases hc)
+    | const a => rw [groupMembersAttrs, expandedAttrs, ih'] <;> (intro _ hc; cases hc)
+    | con a => rw [groupMembersAttrs, expandedAttrs, ih'] <;> (intro _ hc; cases hc)
+
+/-- On a schema without `use` cycle the model's `groupAttrs` satisfies the recursion equation of Python's
+    `_group_attrs` (which carries no path): the attributes of a group are those of its members, in order,
+    with every `use` replaced by the attributes of the group used. -/
+theorem groupAttrs_unfold' {s : Schema N} (hno : NoUseCycle s) {n : String} {g : Group N}
+    (hf : findGroup s n = some g) : groupAttrs s n [] = expandedAttrs s g.members := by
+  rw [groupAttrs]
+  simp only [List.not_mem_nil, ↓reduceDIte]
+  split
+  · rename_i h; rw [hf] at h; cases h
+  · rename_i g' hg'
+    rw [hf] at hg'; cases hg'
+    apply groupMembersAttrs_eq_expanded
+    intro u hu
+    have he : UseEdge s n u.group := ⟨g, u, hf, hu, rfl⟩
+    apply groupAttrs_stack_indep hno
+    · intro x hx
+      simp only [List.nil_append, List.mem_singleton] at hx
+      rw [hx]; exact .step he
+    · simp
+
 /-! ## `_validate_attr` -/
 
 theorem mem_namespaces {s : Schema N} {t : Option String} : t ∈ namespaces s ↔ IsNamespace s t := by
